@@ -557,6 +557,25 @@ fn run(ctx: &mut Ctx) {
                         l[k] = c;
                     }
                 }
+                5 if rng.bool() => {
+                    // two or three chunks carrying the same extreme id (arithmetic on ids next to a repeated maximum)
+                    let id = *rng.pick(&[0xFFFFu16, 0xFFFE, 0x7FFF, 0x8000, 0]);
+                    for _ in 0..2 + rng.usize(2) {
+                        let k = rng.usize(raw.len());
+                        let mut r = raw[k].clone();
+                        r.chunk_id = id;
+                        if let Some(c) = super::lib_chunk(ctx, &r.encode()) {
+                            if rng.bool() {
+                                l[k] = c;
+                            } else {
+                                l.push(c);
+                            }
+                        }
+                    }
+                    if rng.bool() {
+                        rng.shuffle(&mut l);
+                    }
+                }
                 _ => {
                     let k = rng.usize(raw.len());
                     let mut r = raw[k].clone();
